@@ -14,6 +14,14 @@
    codes) go through the same harness.  The concrete realisation of each font (component record
    forms, empty / non-empty composite instructions, simple-glyph instructions) varies with
    VERIF_SEED and the font; the original font's cmap subtables are encoded by the harness itself.
+4. Lookups of two subtables that overlap on their keys are judged on their *effective* rules
+   (first subtable wins, before and after subsetting and after Write+Read); rules may involve
+   glyph 0 and cover every glyph (coverage tables of the subset start at 0, range format).
+5. Size-boundary sweeps: concrete-only padding (copyright notice, glyph names, glyph programs,
+   TrueType instructions) moves the String / CharStrings INDEX of the written subset through
+   247..263 bytes (thorough: CharStrings also through 65527..65544) and its glyf table through
+   0xFFF8..0x10008 and 0x1FFF8..0x20008; the harness measures the written files with its own table
+   walker and the check fails (exit 2) if the boundary sizes were not produced.
    All recorded events are judged by TLC with SubsetTrace.tla (the relation of Subset.tla); a
    failing case is re-recorded alone and re-judged before it is reported.
 """
@@ -36,7 +44,10 @@ MANIFEST = {
             "simple and CID-keyed CFF, GSUB 1.1/4.1, GPOS 2.1, cmap 4/12), followed by Write+Read, and TLC judges the "
             "recorded projections with SubsetTrace.tla; seeded random fonts of up to 12 glyphs, and variants whose "
             "character map is laid out against the glyph list (code runs that break and re-form under re-keying), go "
-            "the same way; component record forms and instruction blocks vary per seed, font and glyph.",
+            "the same way; component record forms and instruction blocks vary per seed, font and glyph. Lookups with two "
+            "overlapping subtables are compared on their effective rules; padded realisations sweep the written "
+            "subset's CFF INDEX sizes through 255 (thorough: 65535) and its glyf table through 0x10000 and 0x20000 "
+            "(sizes measured on the written files).",
     "note": "Trusted: TLC, the font builder/projector of harness/internal/subx (self-checked per font: the projection of "
             "the built font must be the abstract font). Two readings of 'needed extras' are accepted (between the "
             "ligature+component closure and the joint closure incl. single substitutions); single-substitution rules may "
